@@ -222,7 +222,11 @@ def c19_5(ctx):
                 out.append(ctx.ok(spec, "item %d (%s) as specified" % (i + 1, fld), fn, mod, key="version:%s" % fld))
             else:
                 extra = " — the protocol transmits ports in network byte order (big endian)" if "port" in str(fld) else ""
-                out.append(ctx.bad(spec, "item %d: %s%s" % (i + 1, d.replace("item 1: ", ""), extra), fn, mod, key="version:%s" % fld))
+                how = "%s%s%s" % (a[0], a[1] if a[0] in ("int", "bytes") and a[1] is not None else "", a[2] if a[0] == "int" else "")
+                out.append(ctx.bad(spec, "item %d: %s%s" % (i + 1, d.replace("item 1: ", ""), extra), fn, mod, key="version:%s:%s" % (fld, how)))
+            # which attribute fills the slot is a separate question from how it is encoded (diff() stops at the first deviation)
+            if a[0] in ("int", "bytes") and b[0] == a[0] and a[3] is not None and b[3] is not None and str(a[3]).split(".")[-1] != str(b[3]):
+                out.append(ctx.bad(spec, "item %d: the slot of `%s` is filled with `%s`" % (i + 1, b[3], a[3]), fn, mod, key="version-binds:%s" % fld))
     out.append(_writer(ctx, "network:GetHeadersMessage.serialize", GETHEADERS, "getheaders"))
     out.append(_writer(ctx, "network:GetDataMessage.serialize", GETDATA, "getdata"))
     out.append(_reader(ctx, "network:HeadersMessage.parse", HEADERS_R, "headers"))
